@@ -2,11 +2,18 @@ P = dict(
     features={"quick": [None, "fixed_point"], "thorough": [None, "fixed_point"]},
     bin="egv_c02", trace="Trace_C02", level="model_checking",
     mc=[dict(module="MC_C02", quick_cfg="MC_C02.cfg", workers=8, coverage=False),
-        dict(module="MC_C02", quick_cfg="MC_C02_control.cfg", expect_violation=True, coverage=False, workers=8)],
-    required_events=["draw"],
+        dict(module="MC_C02", quick_cfg="MC_C02_control.cfg", expect_violation=True, coverage=False, workers=8),
+        # the primitive machines of C06 / C17 with C02's invariant checked in EVERY state (every prefix of the call sequence)
+        dict(module="MC_C06", quick_cfg="MC_C02_rc.cfg", workers=8, coverage=False),
+        dict(module="MC_C06", quick_cfg="MC_C02_rc_control.cfg", expect_violation=True, coverage=False, workers=4),
+        dict(module="MC_C06e", quick_cfg="MC_C02_er.cfg", workers=8, coverage=False),
+        dict(module="MC_C06e", quick_cfg="MC_C02_er_control.cfg", expect_violation=True, coverage=False, workers=4),
+        dict(module="MC_C17", quick_cfg="MC_C02_line.cfg", workers=8, coverage=False),
+        dict(module="MC_C17", quick_cfg="MC_C02_line_control.cfg", expect_violation=True, coverage=False, workers=4)],
+    required_events=["draw"], drift_checked=True,
     level_text="MC_C02 steps the transcribed Text::draw / draw_string machine (shared with MC_C15) over abstract fonts whose "
                "decorations lie below and inside the cell and checks after every step that the painted set is inside the "
-               "transcribed bounding_box() (control: the snapshot's measure_string, D10, is refuted); TLC checks for every recorded drawable that all points written on an unbounded target lie inside "
+               "transcribed bounding_box() (control: the snapshot's measure_string, D10, is refuted); the styled rectangle / circle (MC_C06), ellipse / rounded rectangle (MC_C06e) and stroked line (MC_C17 with the transcribed Line::extents) machines are run with the invariant 'everything painted so far lies inside the transcribed styled_bounding_box(), a transparent style paints nothing' (three controls: the stroke forgotten, a one-sided line box); TLC checks for every recorded drawable that all points written on an unbounded target lie inside "
                "bounding_box() and that transparent styles write nothing: the styled-primitive / image catalogue, wide strokes "
                "on lines, triangles and polylines, and text in EVERY built-in font x strings x baselines x alignments x "
                "colour/decoration combinations x line heights",
